@@ -349,6 +349,52 @@ def _inline_attribute_aliases(tree):
     return tree
 
 
+class _ControlShape(ast.NodeTransformer):
+    """behaviour-preserving canonical control shapes:
+    `t = a if c else b`            -> `if c: t = a` / `else: t = b`
+    `if not c: A else: B`          -> `if c: B else: A`
+    `if c: ...exit else: B`        -> `if c: ...exit` followed by B      (exit = return/raise/continue/break)"""
+
+    def _block(self, stmts):
+        out = []
+        for s in stmts:
+            r = self.visit(s)
+            if isinstance(r, list):
+                out.extend(r)
+            elif r is not None:
+                out.append(r)
+        return out
+
+    def generic_visit(self, node):
+        for fld in ("body", "orelse", "finalbody"):
+            b = getattr(node, fld, None)
+            if isinstance(b, list) and b and isinstance(b[0], ast.stmt):
+                setattr(node, fld, self._block(b))
+        if isinstance(node, ast.Try):
+            for h in node.handlers:
+                h.body = self._block(h.body)
+        return node
+
+    def visit_Assign(self, node):
+        if isinstance(node.value, ast.IfExp) and len(node.targets) == 1:
+            import copy
+            a = ast.copy_location(ast.Assign(targets=[copy.deepcopy(node.targets[0])], value=node.value.body, type_comment=None), node)
+            b = ast.copy_location(ast.Assign(targets=[copy.deepcopy(node.targets[0])], value=node.value.orelse, type_comment=None), node)
+            return self.visit_If(ast.copy_location(ast.If(test=node.value.test, body=[a], orelse=[b]), node))
+        return node
+
+    def visit_If(self, node):
+        self.generic_visit(node)
+        if isinstance(node.test, ast.UnaryOp) and isinstance(node.test.op, ast.Not) and node.orelse and not (len(node.orelse) == 1 and isinstance(node.orelse[0], ast.If)):
+            node.test = node.test.operand
+            node.body, node.orelse = node.orelse, node.body
+        if node.orelse and node.body and isinstance(node.body[-1], (ast.Return, ast.Raise, ast.Continue, ast.Break)) and not (len(node.orelse) == 1 and isinstance(node.orelse[0], ast.If)):
+            tail = node.orelse
+            node.orelse = []
+            return [node] + tail
+        return node
+
+
 def normalise_tree(tree):
     aliases = {}
     for n in ast.walk(tree):
@@ -362,6 +408,8 @@ def normalise_tree(tree):
     if not os.environ.get("HV_NO_ALIAS_INLINE"):
         for _ in range(3):  # aliases of aliases
             tree = _inline_attribute_aliases(tree)
+    if not os.environ.get("HV_NO_CONTROL_SHAPE"):
+        tree = _ControlShape().visit(tree)
     return ast.fix_missing_locations(tree)
 
 
